@@ -482,12 +482,11 @@ open Rivaas.Compose in
 /-- the same with the Boolean checks the driver evaluates on every generated case (`wfB` is a
     precondition for the driver to judge a case at all, so the hypothesis of the theorem holds on
     the whole tested population without `Mount`) -/
-theorem compose_admitted_checked (script : List Op) (hnm : noMountB script = true)
-    (hnw : noWhereB script = true) (hwf : wfB script = true)
+theorem compose_admitted_checked (script : List Op) (hnm : noMountB script = true) (hwf : wfB script = true)
     (i : Nat) (ver : Option Nat) (path : Path) (ls : List Level)
     (hl : levels script { mounts := [], route := i } = some (ver, path, ls)) :
     ∃ chain, compose script ver path = some chain ∧ chainOK script { mounts := [], route := i } chain = true :=
-  compose_admitted_partial script (noMount_of_noMountB script hnm hnw) (wf_of_wfB script hwf) i ver path ls hl
+  compose_admitted_partial script (noMount_of_noMountB script hnm) (wf_of_wfB script hwf) i ver path ls hl
 
 open Rivaas.Compose in
 /-- non-vacuity: a script with global `Use` before and after the route, a nested group created
@@ -510,9 +509,8 @@ open Rivaas.Compose in
 /-- **Composition order + isolation, `Mount` included (partial: no sub-router is warmed up before it
     is mounted).** For every well-formed configuration script (`wfB`) in which only the serving
     router is warmed up explicitly (`subsColdB` — a sub-router warmed up before `Mount` is the
-    recorded finding K02b) and no constraint is added to a route after its declaration (`noWhereB`:
-    `Where…` on a registered route re-registers it with the middleware of that moment — modelled and
-    checked per case, not covered by this theorem), and every route reachable on the serving router through any nesting
+    recorded finding K02b) — `Where…` on registered routes (re-registration with the middleware of
+    that moment) included —, and every route reachable on the serving router through any nesting
     of mounts (`levels script tg` resolves): the handler slice the model composes exists and is
     admitted by the oracle — the serving router's global middleware, then per mount (outermost
     first) the parent's middleware again under `InheritMiddleware` (test-pinned), the sub-router's
@@ -521,10 +519,10 @@ open Rivaas.Compose in
     the nested scope, or the mount) came into being is present, in attach order; nothing from any
     scope outside occurs. Generalises `compose_admitted_partial`. -/
 theorem compose_admitted_mounts_partial (script : List Op) (hwf : wfB script = true)
-    (hcold : subsColdB script = true) (hnw : noWhereB script = true) (tg : Target) (ver : Option Nat) (path : Path) (ls : List Level)
+    (hcold : subsColdB script = true) (tg : Target) (ver : Option Nat) (path : Path) (ls : List Level)
     (hl : levels script tg = some (ver, path, ls)) :
     ∃ chain, compose script ver path = some chain ∧ chainOK script tg chain = true := by
-  obtain ⟨chain, h1, h2⟩ := compose_admitted_mount script (noWhere_of_noWhereB script hnw) (wfm_of_wfB script hwf)
+  obtain ⟨chain, h1, h2⟩ := compose_admitted_mount script (wfm_of_wfB script hwf)
     (subsCold_of_subsColdB script hcold) tg ver path ls hl
   exact ⟨chain, h1, by simp [chainOK, hl, h2]⟩
 
@@ -544,7 +542,7 @@ example :
 
 
 open Rivaas.Compose in
-/-- `Where…` after warm-up (modelled, outside the ∀-theorems): `Use(1)`, route, `Warmup()`, `WhereInt`,
+/-- `Where…` after warm-up (covered by the ∀-theorems; a concrete instance): `Use(1)`, route, `Warmup()`, `WhereInt`,
     `Use(3)`, `WhereInt` again — each re-registration takes the global middleware of that moment
     exactly once: `[1, 3, 2]`, admitted by the oracle (3 is "attached later": may). A registration that
     stored its result back into the route would give `[1, 3, 1, 1, 2]` — rejected. -/
@@ -552,6 +550,7 @@ theorem where_after_warmup_example :
     let script : List Op := [.use 0 [1], .route (.router 0) 1 [2], .warmup 0, .whereOp 0 none [1], .use 0 [3],
                              .whereOp 0 none [1]]
     let tg : Target := { mounts := [], route := 1 }
+    wfB script = true ∧ subsColdB script = true ∧ noMountB script = true ∧ (levels script tg).isSome = true ∧
     compose script none [1] = some [1, 3, 2] ∧ chainOK script tg [1, 3, 2] = true ∧
     chainOK script tg [1, 3, 1, 1, 2] = false := by decide
 
